@@ -198,7 +198,13 @@ def apply_step(pool, step, cfg):
         m = S > step[3]
         return [m.apply_mask(pool[step[2]], axes=step[4])]
     if op == "diag":
-        return [pool[step[1]].diag()]
+        a = pool[step[1]]
+        if len(step) > 2 and step[2]:
+            # both directions under a pending transpose: diagonal -> full of the lazily transposed diagonal tensor, and
+            # full -> diagonal of the lazily transposed full image
+            full = a.diag()
+            return [a.T.diag(), a.transpose((1, 0)).diag(), full.T.diag(), full.transpose((1, 0)).diag().diag()]
+        return [a.diag()]
     if op == "flip_charges":
         return [pool[step[1]].flip_charges(axes=tuple(step[2]))]
     if op == "addn_lazy":
@@ -540,7 +546,7 @@ def propose(pool, rng, fermionic, fuse_modes=(None, None, "hard", "meta")):
         i = pick(lambda t: t.isdiag)
         if i is None:
             return None
-        return ("diag", i)
+        return ("diag", i, rng.random() < 0.6)
     if kind == "flip_charges":
         i = pick(lambda t: not t.isdiag and t.ndim >= 1 and not any(is_fused(l) for l in t.get_legs()))
         if i is None:
